@@ -4,8 +4,8 @@ PROP = "C14"
 
 CFG = dict(
     stages=[
-        seq("thr_tsan", "tsan", "c14_logging.c", 400, 40000, mode="thr", wrap=True, per_proc_timeout=1800),
-        seq("thr_asanh", "asanh", "c14_logging.c", 400, 40000, mode="thr", wrap=True, leak=True, per_proc_timeout=1800),
+        seq("thr_tsan", "tsan", "c14_logging.c", 400, 40000, mode="thr", wrap=True, per_proc_timeout=1800, env={"TZ": "XYZ-9"}),
+        seq("thr_asanh", "asanh", "c14_logging.c", 400, 40000, mode="thr", wrap=True, leak=True, per_proc_timeout=1800, env={"TZ": "UTC"}),
         seq("trunc_asan", "asan", "c14_logging.c", 800, 80000, mode="trunc"),
         seq("trunc_rel", "rel", "c14_logging.c", 400, 40000, mode="trunc"),
     ],
